@@ -1,8 +1,12 @@
 package main
 
 import (
+	"bytes"
+
 	"encoding/json"
 	"fmt"
+	NoKV "github.com/feichai0017/NoKV"
+	"github.com/feichai0017/NoKV/lsm/compact"
 	"math/rand"
 	"os"
 	"regexp"
@@ -32,7 +36,101 @@ type closeDesc struct {
 	Close   bool        `json:"close"`
 	Words   []int       `json:"words"`
 	Grants  []int       `json:"grants,omitempty"`
-	Txn     *txnDesc    `json:"txn,omitempty"` // second kind of case: transactional calls around a rejected commit
+	Txn     *txnDesc    `json:"txn,omitempty"`   // second kind of case: transactional calls around a rejected commit
+	Maint   *maintDesc  `json:"maint,omitempty"` // third kind: flush, a compaction with many output tables, Close
+}
+
+type maintDesc struct {
+	Keys     int `json:"keys"`
+	ValueKiB int `json:"value_kib"`
+}
+
+// watchdogFor is watchdog with its own time limit (a compaction of tens of MiB takes seconds).
+func watchdogFor(limit time.Duration, f func()) bool {
+	done := make(chan struct{})
+	go func() {
+		defer close(done)
+		f()
+	}()
+	select {
+	case <-done:
+		return true
+	case <-time.After(limit):
+		return false
+	}
+}
+
+// execMaint: write Keys distinct keys with ValueKiB-KiB inline values, rotate, flush, move L0 to the
+// ingest buffer of L6, drain it into L6 (the merge is split into ceil(total/8MiB) output tables, built by
+// concurrent builders), read everything back, Close. Every step runs under a watchdog.
+func execMaint(c *corr.Ctx, d maintDesc) corr.Case {
+	dir := scratchDir(c)
+	defer os.RemoveAll(dir)
+	verifhook.SetFlag("compaction.pause", true) // only the compactions asked for below run
+	defer verifhook.SetFlag("compaction.pause", false)
+	opt := NoKV.NewDefaultOptions()
+	opt.WorkDir = dir
+	opt.MemTableSize = 64 << 20
+	opt.SSTableMaxSz = 8 << 20
+	opt.ValueThreshold = 1 << 20
+	opt.MaxBatchSize = 16 << 20
+	opt.HotRingEnabled = false
+	opt.WriteHotKeyLimit = 0
+	opt.EnableWALWatchdog = false
+	opt.ValueLogGCInterval = 0
+	opt.NumCompactors = 1
+	db := NoKV.Open(opt)
+	val := func(i int) []byte {
+		v := bytes.Repeat([]byte{byte('a' + i%26)}, d.ValueKiB<<10)
+		copy(v, fmt.Sprintf("m%04d.", i))
+		return v
+	}
+	for i := 0; i < d.Keys; i++ {
+		if err := db.Set([]byte(fmt.Sprintf("maint-%04d", i)), val(i)); err != nil {
+			panic(err)
+		}
+	}
+	ls := db.VerifLSM()
+	flushOK := watchdogFor(60*time.Second, func() {
+		ls.Rotate()
+		_ = ls.VerifWaitFlushed(0, 50*time.Second)
+	})
+	var comps []string
+	allOK := flushOK
+	step := func(level, mode, base int) {
+		if !allOK {
+			return
+		}
+		ok := watchdogFor(45*time.Second, func() { _ = ls.VerifCompact(level, mode, base) })
+		comps = append(comps, corr.Bool(ok))
+		allOK = allOK && ok
+	}
+	step(0, 0, 6)                        // L0 -> ingest buffer of L6
+	step(6, int(compact.IngestDrain), 0) // ingest buffer -> L6: many output tables
+	tables := 0
+	readsOK := true
+	if allOK {
+		lay := ls.VerifLayout(false)
+		if len(lay.Levels) > 6 {
+			tables = len(lay.Levels[6].Main)
+		}
+		for i := 0; i < d.Keys; i++ {
+			e, err := db.Get([]byte(fmt.Sprintf("maint-%04d", i)))
+			if err != nil || !bytes.Equal(e.Value, val(i)) {
+				readsOK = false
+			}
+		}
+	}
+	closeOK := false
+	if allOK {
+		closeOK = watchdogFor(60*time.Second, func() { _ = db.Close() })
+	} else {
+		c.Count("maintenance_hung")
+		hungCases++
+	}
+	c.CountN("compaction_output_tables", tables)
+	return corr.Case{Coq: fmt.Sprintf("Mt %d %s %s %s %s", tables, corr.Bool(flushOK), corr.List(comps), corr.Bool(readsOK), corr.Bool(closeOK)),
+		Nontrivial: tables > 3, Desc: closeDesc{Maint: &d}}
 }
 
 var closePoints = map[string]bool{
@@ -273,7 +371,8 @@ func runClose(c *corr.Ctx) error {
 		"and whether Close returned are compared with the model; at the end the ok/error result of every call. Plus transactional "+
 		"scenarios: a commit that got its timestamp is rejected (too large for one request / commit queue closed), then further "+
 		"NewTransaction + Get + Set + Commit (and a reopen) - every call under a watchdog of 4 s, compared with Model/TxnOracle.v, "+
-		"a call that does not return is the violation. non-trivial = Close or "+
+		"a call that does not return is the violation. Plus one maintenance scenario: 48 keys x 900 KiB inline values, rotate, flush, "+
+		"L0 -> L6 ingest, ingest drain (5-6 output tables of <= 8 MiB built concurrently), read back, Close, each under a watchdog. non-trivial = Close or "+
 		"throttle present; distinct by Gallina term")
 	emit := func(d closeDesc) error {
 		cs, err := execClose(c, d)
@@ -298,12 +397,21 @@ func runClose(c *corr.Ctx) error {
 				c.Emit(execRejected(c, *d.Txn))
 				continue
 			}
+			if d.Maint != nil {
+				c.Emit(execMaint(c, *d.Maint))
+				continue
+			}
 			d.Words = d.Grants
 			if err := emit(d); err != nil {
 				return err
 			}
 		}
 		return nil
+	}
+	// a compaction with more than 3 output tables finishes, and Close finishes afterwards
+	c.Emit(execMaint(c, maintDesc{Keys: 48, ValueKiB: 900}))
+	if c.Tier == "thorough" {
+		c.Emit(execMaint(c, maintDesc{Keys: 70, ValueKiB: 700}))
 	}
 	// transactional calls around a rejected commit: every later call must return
 	for i, m := 0, c.Scale(30, 600); i < m && hungCases < 4; i++ {
